@@ -398,6 +398,8 @@ def main(argv):
         if "--tier" in argv:
             tier = argv[argv.index("--tier") + 1]
         seed = int(os.environ.get("VERIF_SEED", "20260923"))
+        if "--seed" in argv:
+            seed = int(argv[argv.index("--seed") + 1])
         mod = load_mod(prop)
         for attempt in (1, 2):
             try:
